@@ -7,7 +7,7 @@ HOOK_COMMITS = []
 
 ENGINES = [
     {'name': 'E1-input-config-explorer', 'path': 'vf/core.py, vf/univ.py, vf/oracles.py',
-     'serves_properties': ['C01', 'C02', 'C03'],
+     'serves_properties': ['C01', 'C02', 'C03', 'C09', 'C10', 'C11'],
      'kind_free_text': 'explicit enumeration of every input shape/value/configuration inside stated bounds; real code run on each; compared with a reference model on every case'},
 ]
 
@@ -32,6 +32,23 @@ CHECKS['C03'] = (E1 + ' with exhaustive per-case threshold sets (two-run metamor
     '(Python/C x distance, warping_paths, keep_int_repr, compact, distance_matrix); use_pruning is tried in every configuration in which C03 calls the bound valid. Result must be the unbounded result or inf as the property states.',
     'Trusted: the same routine without max_dist as oracle (C01/C02/C04 cover it); thresholds within 1e-9 relative of the true value are not judged.',
     'DESIGN.md section 4 C03')
+
+CHECKS['C09'] = (E1, 'E1-input-config-explorer',
+    'All series pairs over a positive and a mixed-sign dyadic alphabet (lengths 1..4, ndim 1..3) x both inner distances x every window: every public and exported way to obtain the Euclidean bound '
+    '(ed.distance, distance_fast, ub_euclidean, ed_cc.distance_ndim, dtw_cc.ub_euclidean(_ndim), distance(only_ub) in 4 routes, C functions) equals the defining formula and is >= the reference DTW; '
+    'LB_Keogh (Python, Cython, C) is equal in both engines and <= reference DTW for penalties {0,.5,2}.',
+    'Trusted: reference DTW (C01 ties it to the implementation). LB is not required to equal the textbook envelope, only to be a lower bound and engine-independent.',
+    'DESIGN.md section 4 C09')
+CHECKS['C10'] = (E1 + ' (oracle-free metamorphic relations over a complete settings grid)', 'E1-input-config-explorer',
+    'For every unordered series pair the complete table of distances over window x penalty x max_step x inner x psi grid is computed in both argument orders and both engines (ndim 1 and 2); identity, non-negativity, '
+    'symmetry under swapped psi, monotonicity in window/psi component/penalty/max_step and window=1 == Euclidean are checked on every comparable pair of grid points; square distance matrices are checked for mirroring validity.',
+    'Trusted: nothing but float comparison; the relations are exactly those named in C10.',
+    'DESIGN.md section 4 C10')
+CHECKS['C11'] = (E1, 'E1-input-config-explorer',
+    'All pairs of series of d-vectors (d 1..3, lengths 1..3) over a 2-letter alphabet x settings cross: dtw_ndim.distance/_fast, warping_paths(_fast) value+shape, warping_path (validity and cost), '
+    'use_pruning, and distance_matrix over 3-collections in list-of-2D and 3-D containers, both engines, against the path-definition reference with vector point distance; d=1 also against the univariate routine.',
+    'Trusted: vf/oracles.py. Two open findings (K01 best path under psi end-relaxation, K02 C warping_paths psi end-relaxation with a window) are matched narrowly by tags.',
+    'DESIGN.md section 4 C11')
 
 ALL = ['C%02d' % i for i in range(1, 21)]
 NOT_APPLICABLE = {p: PENDING for p in ALL if p not in CHECKS}
